@@ -244,8 +244,8 @@ def _misc(drv, ctx, rnd, n):
                 S = Fraction(int(S * 10 ** 8), 10 ** 8)
             drv.drive(sign, D, M, S, 'frac-seconds', hop2=True)
         elif r == 1:    # within 1e-9" of a minute / degree boundary, both sides
-            D, M = rnd.randint(0, 359), rnd.randint(0, 59)
-            eps = rnd.choice([1, 2, 5, 10, 100])
+            D, M = rnd.choice([rnd.randint(0, 359), rnd.randint(360, 719), rnd.randint(512, 719)]), rnd.randint(0, 59)
+            eps = rnd.choice([1, 2, 3, 5, 7, 10, 100])
             S = rnd.choice([Fraction(60 * 10 ** 9 - eps, 10 ** 9), Fraction(eps, 10 ** 9)])
             if rnd.random() < 0.5:
                 M = rnd.choice([0, 59])
